@@ -296,7 +296,7 @@ def variant_info(var):
     v = variants.VARIANTS[var]
     return dict(par=v["macro"] in variants.PAR_MACROS, cmap=v.get("cmap", "int"),
                 ren=(v.get("xform") == "rename"), timeout=bool(v.get("timeout")), macro=v["macro"],
-                init=(v.get("pack") == "init"))
+                init=(v.get("pack") == "init"), feed=bool(v.get("headonly")))
 
 
 # ------------------------------------------------------------------------------------------------ running cases
@@ -418,6 +418,8 @@ def normalise(case, prog, events):
             r = relname(e["rel"])
             if r is None:
                 continue
+            if vi.get("feed") and rels[r]["input"]:
+                continue       # the generator rule that hands the pushed rows to the input relation (they are already counted as pushed)
             if e.get("t") is None:
                 out.append({"e": "ins", "rel": r, "has_t": False, "t": []})
             else:
